@@ -26,7 +26,7 @@ RULE = ("Request = route (every rule of the introspected tornado router incl. st
         "non-ASCII, not UTF-8) x XSRF form (12 ways of pairing cookie and token) x Sec-Fetch-Site (absent, same-origin, none, "
         "cross-site, same-site, case variants, empty, junk; header name case) x password mode (plaintext / argon2 hash) x "
         "WebSocket upgrade headers. 70% draws from the main forms, 30% from the adversarial dictionaries; thorough adds the full "
-        "product route x method x 15 credential forms x XSRF/Sec-Fetch-Site grid (about 40000 cases). Non-trivial = carries some "
+        "product route x method x 19 credential forms (incl. near misses of the password) x XSRF/Sec-Fetch-Site grid (about 40000 cases). Non-trivial = carries some "
         "credential, XSRF or Sec-Fetch-Site material or an unsafe method; distinct by canonical JSON.")
 TRUSTED = ["Coq 8.16.1 kernel (coqc), vm_compute for the table checks and case evaluation",
            "harness/translators/web_routes.py: introspection of the running Application (rules, SUPPORTED_METHODS, __wrapped__ chain, "
@@ -271,6 +271,11 @@ def _cred_forms(mode):
         {"cookie": "none", "authz": None, "tokens": [_tok("päss".encode())]},
         {"cookie": "none", "authz": None, "tokens": [_tok(b"\xff\xfe")]},
         {"cookie": "unsigned", "authz": hx(b"bearer " + pw), "tokens": [_tok(b"")]},
+        # near misses of the password
+        {"cookie": "none", "authz": None, "tokens": [_tok(pw.upper())]},
+        {"cookie": "none", "authz": hx(b"Bearer " + pw[:-1]), "tokens": []},
+        {"cookie": "none", "authz": None, "tokens": [_tok(pw + b"x")]},
+        {"cookie": "none", "authz": hx(b"Bearer " + pw.upper()), "tokens": []},
     ]
 
 
@@ -316,7 +321,7 @@ def gen(rng, n, tier):
         for route in list(range(nroutes)) + [-1, -1]:
             for method in METHODS + ["FOO", "post"]:
                 if method in ("POST", "DELETE", "PATCH", "PUT"):
-                    grid = [(x, s) for x in ("none", "header", "mismatch", "arg") for s in SFS_MAIN]
+                    grid = [(x, s) for x in ("none", "header", "mismatch") for s in SFS_MAIN]
                 else:
                     grid = [("none", None), ("none", "cross-site")]
                 for ci, cred in enumerate(_cred_forms("plain")):
@@ -347,11 +352,12 @@ def gen(rng, n, tier):
         if adversarial:
             k = rng.below(6)
             if k == 0:
-                c["cookie"] = rng.choice(COOKIE_FORMS)
+                c.update(cookie=rng.choice(COOKIE_FORMS), authz=None, tokens=[])
             elif k == 1:
-                c["authz"] = hx(_authz_adv(rng, pw))
+                c.update(cookie="none", authz=hx(_authz_adv(rng, pw)), tokens=[])
             elif k == 2:
-                c["tokens"] = [_tok(_token_adv(rng, pw), rng.choice("qqb")) for _ in range(rng.randint(1, 3))]
+                c.update(cookie="none", authz=None,
+                         tokens=[_tok(_token_adv(rng, pw), rng.choice("qqb")) for _ in range(rng.randint(1, 3))])
             elif k == 3:
                 c["xsrf"] = rng.choice(XSRF_FORMS)
             elif k == 4:
